@@ -61,7 +61,7 @@ package blob
 
 //@ func (b *Bytes) Set(src Blob, destStart int64) (n int, err error)
 //@   props C19
-//@   requires inv(b) && !held(b.mu) && blobOK(src)
+//@   requires inv(b) && !held(b.mu) && blobOK(src) && !blobLocked(src)
 //@   modifies elems(b.bytes)
 //@   ensures "range" implies(destStart < 0 || destStart > len(b.bytes), err != nil)
 //@   ensures "accepts" implies(0 <= destStart && destStart <= len(b.bytes) && !(len(b.bytes) == 0 && old(blobLen(src)) > 0), err == nil)
